@@ -7,7 +7,7 @@
     consumes no excluded position; [apply_word]/[apply_excl] perform it; [shift_of k] is the
     re-indexing of old positions, [old_pos k] the old positions the edit consumed,
     [new_pos k] the new positions it wrote. Exclusion sets are lists read as sets. *)
-From TU Require Import Base C15_Model C15_Proofs C15_Apply C15_Check.
+From TU Require Import Base C15_Model C15_Proofs C15_Apply C15_Check C15_Chain.
 From Coq Require Import Lia.
 
 (** one_edit: every outcome is the word with at most one valid edit applied, and the
@@ -114,6 +114,23 @@ Theorem chain_inv : forall c n s s',
   chain c n s s' -> in_range (fst s) (snd s) -> in_range (fst s') (snd s').
 Proof. exact chain_inv_l. Qed.
 Print Assumptions chain_inv.
+
+(** edit_consumes: after a valid edit the characters at unprotected positions are exactly the
+    previously unprotected ones minus those the edit consumed (everything the edit wrote is
+    protected, nothing else became protected) *)
+Theorem edit_consumes : forall c w ex k,
+  valid_ed c w ex k ->
+  unprot (apply_word k w) (apply_excl k ex) = unprot w (old_pos k ++ ex).
+Proof. exact unprot_step. Qed.
+Print Assumptions edit_consumes.
+
+(** chain_fresh: after any number of chained calls the unprotected characters are a
+    subsequence of the originally unprotected ones: no call edits what an earlier call wrote,
+    and what is still unprotected is original text in original order *)
+Theorem chain_fresh : forall c n s s',
+  chain c n s s' -> subseq (unprot (fst s') (snd s')) (unprot (fst s) (snd s)).
+Proof. exact chain_fresh_l. Qed.
+Print Assumptions chain_fresh.
 
 (** check_run: the executable statement evaluated on implementation outputs holds of every
     output whose provider probe equals the model's and whose chain results are elements of
